@@ -449,3 +449,35 @@ def case_ovr_scatter():
 
 
 CASES.update({"ovr_unsqueeze": case_ovr_unsqueeze, "ovr_slice": case_ovr_slice, "ovr_scatter": case_ovr_scatter})
+
+
+def case_cast_cast():
+    """Cast(Cast(x, FLOAT), FLOAT16|BFLOAT16) on float64 inputs just above every tie point of the 16-bit format."""
+    import ml_dtypes
+    bad = 0
+    h = np.arange(0x0400, 0x7BFF, dtype=np.uint16).view(np.float16).astype(np.float64)  # positive normal float16 values
+    mid16 = (h[:-1] + h[1:]) / 2
+    b = (np.arange(0x0080, 0x7F7F, dtype=np.uint16).astype(np.uint32) << 16).view(np.float32).astype(np.float64)  # positive normal bfloat16
+    midb = (b[:-1] + b[1:]) / 2
+    for to, mids, what in ((TensorProto.FLOAT16, mid16, "FLOAT16"), (TensorProto.BFLOAT16, midb, "BFLOAT16")):
+        xs = np.concatenate([np.nextafter(mids, np.inf), np.nextafter(mids, -np.inf), -np.nextafter(mids, np.inf)])
+        for typed in (True, False):
+            src = "x" if typed else "n"
+            nodes = ([] if typed else [helper.make_node("Neg", ["x"], ["n"])]) + [
+                helper.make_node("Cast", [src], ["m"], to=TensorProto.FLOAT), helper.make_node("Cast", ["m"], ["y"], to=to)]
+            g = helper.make_graph(nodes, "g", [vi("x", TensorProto.DOUBLE, [len(xs)])], [vi("y", to, [len(xs)])])
+            m = helper.make_model(g, opset_imports=[helper.make_opsetid("", 18)], ir_version=9)
+            import onnxscript.rewriter
+            new = onnxscript.rewriter.rewrite(m)
+            a0 = np.asarray(run(m, {"x": xs})[0]).astype(np.float64)
+            a1 = np.asarray(run(new, {"x": xs})[0]).astype(np.float64)
+            diff = np.nonzero(~((a0 == a1) | (np.isnan(a0) & np.isnan(a1))))[0]
+            if len(diff):
+                i = diff[0]
+                print(f"Cast(Cast({'x' if typed else 'Neg(x), element type not recorded'}: float64, to=FLOAT), to={what}): {len(diff)} of {len(xs)} inputs differ, "
+                      f"e.g. x={xs[i]!r}: original {a0[i]!r} rewritten {a1[i]!r} (ops after rewrite: {[n.op_type for n in new.graph.node]})")
+                bad += 1
+    return bad
+
+
+CASES["cast_cast"] = case_cast_cast
